@@ -163,6 +163,58 @@ theorem wallDistance_tri_exact (ncell : Int) (tris : Int → V3 ℝ × V3 ℝ ×
       obtain ⟨c, hc, hsp⟩ := hall e he
       exact ⟨c, hc, by rw [← hv, hsp.1]⟩
 
+/-- `ref_phys_local_wall` (3-D): the wall list contains every wall triangle and, for every wall quad, BOTH
+    triangles `(0,1,2)` and `(0,2,3)` of its split (whose union is the quad), and nothing else -/
+theorem localWall3_mem (tris : List (V3 ℝ × V3 ℝ × V3 ℝ)) (quads : List (V3 ℝ × V3 ℝ × V3 ℝ × V3 ℝ))
+    (t : V3 ℝ × V3 ℝ × V3 ℝ) :
+    t ∈ localWall3 tris quads ↔
+      t ∈ tris ∨ ∃ q ∈ quads, t = (q.1, q.2.1, q.2.2.1) ∨ t = (q.1, q.2.2.1, q.2.2.2) := by
+  simp [localWall3, List.mem_flatMap]
+
+theorem localWall3_length (tris : List (V3 ℝ × V3 ℝ × V3 ℝ)) (quads : List (V3 ℝ × V3 ℝ × V3 ℝ × V3 ℝ)) :
+    (localWall3 tris quads).length = tris.length + 2 * quads.length := by
+  induction quads with
+  | nil => simp [localWall3]
+  | cons q qs ih =>
+    simp only [localWall3, List.flatMap_cons, List.length_append, List.length_cons, List.length_nil] at ih ⊢
+    omega
+
+/-- element `c` of a wall list (out-of-range indices give a zero triangle; never used below) -/
+def wallAt (l : List (V3 ℝ × V3 ℝ × V3 ℝ)) (c : Int) : V3 ℝ × V3 ℝ × V3 ℝ :=
+  l.getD c.toNat (⟨0, 0, 0⟩, ⟨0, 0, 0⟩, ⟨0, 0, 0⟩)
+
+theorem wallAt_natCast (l : List (V3 ℝ × V3 ℝ × V3 ℝ)) (k : Nat) (hk : k < l.length) :
+    wallAt l (k : Int) = l[k] := by
+  simp [wallAt, List.getD, hk]
+
+/-- wall distance with quad walls: the value returned for the wall list built by `ref_phys_local_wall` is a
+    lower bound of the distance to both triangles of every wall quad and to every wall triangle
+    (for every insertion order `perm` that inserts the whole list) -/
+theorem wallDistance_quad_exact (tris : List (V3 ℝ × V3 ℝ × V3 ℝ)) (quads : List (V3 ℝ × V3 ℝ × V3 ℝ × V3 ℝ))
+    (perm : List Int) (s : Search ℝ)
+    (hperm : ∀ k : Nat, k < (localWall3 tris quads).length → (k : Int) ∈ perm)
+    (hw : wallBuild ((localWall3 tris quads).length : Int)
+      (fun c => [(wallAt (localWall3 tris quads) c).1, (wallAt (localWall3 tris quads) c).2.1,
+                 (wallAt (localWall3 tris quads) c).2.2]) perm = (.ok, some s)) (x : V3 ℝ) (d0 : ℝ) :
+    (∀ t ∈ tris, s.nearestTri (wallAt (localWall3 tris quads)) x d0 ≤ dist2tri t.1 t.2.1 t.2.2 x) ∧
+    (∀ q ∈ quads, s.nearestTri (wallAt (localWall3 tris quads)) x d0 ≤ dist2tri q.1 q.2.1 q.2.2.1 x ∧
+                  s.nearestTri (wallAt (localWall3 tris quads)) x d0 ≤ dist2tri q.1 q.2.2.1 q.2.2.2 x) := by
+  obtain ⟨_, hle, _⟩ := wallDistance_tri_exact _ (wallAt (localWall3 tris quads)) perm s hw x d0
+  have key : ∀ t ∈ localWall3 tris quads,
+      s.nearestTri (wallAt (localWall3 tris quads)) x d0 ≤ dist2tri t.1 t.2.1 t.2.2 x := by
+    intro t ht
+    obtain ⟨k, hk, hget⟩ := List.getElem_of_mem ht
+    have h1 := hle (k : Int) (hperm k hk)
+    rw [wallAt_natCast _ k hk, hget] at h1
+    exact h1
+  refine ⟨fun t ht => key t ((localWall3_mem tris quads t).2 (.inl ht)), fun q hq => ⟨?_, ?_⟩⟩
+  · have h := key (q.1, q.2.1, q.2.2.1) ((localWall3_mem tris quads _).2 (.inr ⟨q, hq, .inl rfl⟩))
+    dsimp only at h
+    exact h
+  · have h := key (q.1, q.2.2.1, q.2.2.2) ((localWall3_mem tris quads _).2 (.inr ⟨q, hq, .inr rfl⟩))
+    dsimp only at h
+    exact h
+
 /-! ### trim radius / nearest candidates -/
 
 /-- `ref_search_trim` returns `min(t₀, minᵢ (dist x cᵢ + rᵢ))` when no radius is negative -/
